@@ -154,10 +154,14 @@ class RoleEval:
             return res
         if k == "const":
             return t[1]
-        if k == "binop" and t[1] in ("+", "-", "*"):
+        if k == "binop" and t[1] in ("+", "-", "*", "%", "//"):
             a, b = self.eval_term(t[2], env), self.eval_term(t[3], env)
             if isinstance(a, (int, float)) and isinstance(b, (int, float)):
                 a, b = (int(a) if isinstance(a, bool) else a), (int(b) if isinstance(b, bool) else b)
+                if t[1] in ("%", "//"):
+                    if b == 0:
+                        return UNKNOWN
+                    return a % b if t[1] == "%" else a // b
                 return a + b if t[1] == "+" else (a - b if t[1] == "-" else a * b)
             return UNKNOWN
         if k == "phi":
